@@ -688,7 +688,24 @@ fn merge(line: &str, reps: &[String]) -> String {
 fn run() {
     install_hook();
     let lines: Vec<String> = std::io::stdin().lock().lines().map(|l| l.unwrap()).collect();
-    let mut reps: Vec<Vec<String>> = (0..INPROC).map(|_| lines.iter().map(|l| replay(l)).collect()).collect();
+    // every in-process replay runs on a thread of its own (nothing observable may depend on which thread replays);
+    // one after the other, so that the process-wide timer counter advances between them as the model assumes
+    let mut reps: Vec<Vec<String>> = (0..INPROC)
+        .map(|_| {
+            let lines = lines.clone();
+            std::thread::spawn(move || {
+                install_hook();
+                lines.iter().map(|l| replay(l)).collect::<Vec<String>>()
+            })
+            .join()
+            .unwrap_or_default()
+        })
+        .collect();
+    for r in reps.iter_mut() {
+        if r.len() != lines.len() {
+            *r = lines.iter().map(|_| "harness-panic".to_string()).collect();
+        }
+    }
     for _ in 0..NPROC {
         let w = spawn_worker(&lines);
         if w.len() == lines.len() {
